@@ -305,14 +305,14 @@ func (p *Proxy) Serve(l net.Listener) error {
 func (p *Proxy) handleLoop(conn net.Conn) {
 	start := time.Now()
 
-	// RemoteAddr may block (a PROXY protocol listener waits for the header), so it must not
-	// be evaluated in the accept loop.
-	log.Debug(context.TODO(), "accepted connection", "address", conn.RemoteAddr().String())
-
 	p.connsMu.Lock()
 	p.conns[conn] = struct{}{}
 	p.connsWg.Add(1)
 	p.connsMu.Unlock()
+
+	// RemoteAddr may block (a PROXY protocol listener waits for the header), so it must not
+	// be evaluated in the accept loop, nor before Shutdown and Close know the connection.
+	log.Debug(context.TODO(), "accepted connection", "address", conn.RemoteAddr().String())
 
 	defer func() {
 		p.connsMu.Lock()
